@@ -433,14 +433,22 @@ def _real_text(r):
     """a conforming REAL spelling with <= 15 significant digits, exponent within +-300"""
     c = r.random()
     sign = r.choice(["", "", "-", "+"])
-    if c < 0.25:
+    if c < 0.2:
         return sign + "%d." % r.choice([0, 1, 2, 7, 10, 100, 12345, 999999])
-    if c < 0.55:
+    if c < 0.45:
         return sign + "%d.%s" % (r.randint(0, 9999), "".join(r.choice("0123456789") for _ in range(r.randint(1, 8))))
-    mant = "%d.%s" % (r.randint(1, 9), "".join(r.choice("0123456789") for _ in range(r.randint(0, 13))))
-    if r.random() < 0.3:
-        mant = "%d." % r.randint(1, 9)
-    exp = r.choice([0, 1, -1, 2, 5, -5, 10, -10, 37, -37, 38, -38, 39, -45, 100, -100, 299, -299, 300, -300])
+    if c < 0.7:
+        # exactly 15 significant digits (first and last non-zero): the writer's precision limit
+        digs = r.choice("123456789") + "".join(r.choice("0123456789") for _ in range(13)) + r.choice("123456789")
+        k = r.randint(1, 15)
+        mant = digs[:k] + "." + digs[k:]
+    else:
+        mant = "%d.%s" % (r.randint(1, 9), "".join(r.choice("0123456789") for _ in range(r.randint(0, 13))))
+        if r.random() < 0.3:
+            mant = "%d." % r.randint(1, 9)
+    if r.random() < 0.35:
+        return sign + mant
+    exp = r.choice([0, 1, -1, 2, 5, -5, 10, -10, 37, -37, 38, -38, 39, -45, 100, -100, 280, -280])
     return sign + mant + "E" + r.choice(["", "+", ""]) * (exp >= 0) + str(exp)
 
 
@@ -1168,9 +1176,11 @@ def slot_type_features(sch, insts):
                 continue
             slots = sch.internal_slots(ent) if len(x["parts"]) == 1 else [(ent, a, False) for a in sch.own_slots(ent)]
             for (owner, a, derived), v in zip(slots, p["vals"]):
-                if v[0] in ("null", "derived"):
-                    continue
-                f = "attr-type:" + type_category(sch, a["type"])
-                if f not in out:
-                    out.append(f)
+                cat = type_category(sch, a["type"])
+                fs = ["slot-type:" + cat]
+                if v[0] not in ("null", "derived"):
+                    fs.append("attr-type:" + cat)
+                for f in fs:
+                    if f not in out:
+                        out.append(f)
     return out
